@@ -28,11 +28,20 @@
 // Full configurations (config.go) - every block and option of docs/configuration.md,
 // each value drawn valid / invalid / templated:
 //
-//	cfg := pintcfg.Gen(t, pintcfg.Opts{InvalidPct: 3, Prometheus: true, ...})
+//	cfg := pintcfg.Gen(t, pintcfg.Opts{InvalidPct: 3, StructPct: 4, Prometheus: true, Discovery: true, DiscDir: dir})
 //	cfg.HCL        the text
 //	cfg.Uses       every option that was emitted: {Path:"rule.name.regex", Class:"templated-raw", Value:"..."}
-//	cfg.HasProm / HasDiscovery / HasLink / HasTemplated ...   coarse facts about the text
-//	cfg.Excluded   how many draws were diverted by an exclusion switch (Opts.No...)
+//	               classes: valid | invalid | empty | raw (wrong type / broken literal) | unparsable (URI-like options that
+//	               pint does not validate) | templated-safe | templated-raw | templated-datadep | templated-invalid
+//	cfg.HasProm / HasDiscovery / HasLink / HasTemplated / HasRegexOpt / CheckKinds   coarse facts about the text
+//	cfg.Excluded   how many draws were diverted by an exclusion switch (Opts.NoRawSubst, NoBadFailover, NoBadLinkRewrite, NoEmptyRangeMax)
+//
+//	Opts.InvalidPct is a calibrated per-value rate: rapid's integer/float generators are biased towards small
+//	and boundary values, so the rare-event coins come from a splitmix64 stream seeded by 64 rapid booleans
+//	(see g.coin); everything else (which block, which value) is a plain rapid draw and shrinks normally.
+//	Servers only ever point at the refused loopback port 127.0.0.1:1; options that size range queries
+//	(alerts range/step, promql/series lookback) use small pools so a run stays short.
+//	With InvalidPct 0 about 3 of 4 configurations are accepted by config.Load.
 //
 // Rule files (rulefile.go) - RenderDoc(gen.DocSpec) renders a rule document with every
 // scalar double-quoted, so arbitrary names / keys / values survive YAML; GenHostileDoc draws
